@@ -132,3 +132,24 @@ Print Assumptions C08_stream13_empty_record.
 Theorem C08_stream12_empty_send_refused : forall s, send1 (Some max_plain) None false s [] = Err.
 Proof. exact stream12_empty_send_refused. Qed.
 Print Assumptions C08_stream12_empty_send_refused.
+
+(* both directions share conn->databuf on an endpoint.  TLCP / TLS 1.2: tls_encrypt_send refuses to
+   send while received data is still buffered.  TLS 1.3: a write on an endpoint leaves its partially
+   read record alone -- the following receive calls deliver exactly what they would have delivered. *)
+Theorem C08_tls12_send_refused_while_pending : forall d client inp,
+  has_pending d client = true -> dsend (Some max_plain) None false true d client inp = Err.
+Proof. exact tls12_send_refused_while_pending. Qed.
+Print Assumptions C08_tls12_send_refused_while_pending.
+
+Theorem C08_tls13_write_keeps_partial_record : forall d client inp d' ns outlen,
+  dwrite (Some max_plain) None true false d client inp = Ok (d', ns) ->
+  drecv d' client outlen = match recv1 (incoming d client) outlen with
+                           | Ok (x, data) => Ok (set_incoming d' client x, data)
+                           | Err => Err | Fault => Fault end.
+Proof. exact tls13_write_keeps_partial_record. Qed.
+Print Assumptions C08_tls13_write_keeps_partial_record.
+
+Theorem C08_send_keeps_received_data : forall clamp cap allow_empty refuse d client inp d' ns,
+  dwrite clamp cap allow_empty refuse d client inp = Ok (d', ns) -> incoming d' client = incoming d client.
+Proof. exact dwrite_keeps_incoming. Qed.
+Print Assumptions C08_send_keeps_received_data.
